@@ -297,6 +297,7 @@ CLAIMED["C04"]["text"] += (
 )
 CLAIMED["C11"]["text"] += " Round 5: the SDS whole-file sessions of vlib/small4.py (image after a header update byte for byte, read back, closed file independent of updates) run in this check too."
 CLAIMED["C07"]["text"] += " Round 5: the SDS whole-file sessions of vlib/small4.py (closed bytes equal those of one write call without header updates) run in this check too."
+CLAIMED["C04"]["text"] += (
     " Round 5: VOC is repaired (voc_close records where the audio ends, type 1 length = datalength + 2, every block reader accepts a missing terminator): voc_reopen_info and"
     " voc_snapshot_valid (lean/SfProps/C04Voc.lean) hold for EVERY accepted configuration, the old rule (SfModel/VocOld.lean) is refuted by voc_mono_g711_old_rule / voc_snapshot_u8_old_rule."
     " DWVW: the frame count dwvw_init decodes at open is at least the frames written (dwvw_scan_ge), exact for AIFF (dwvw_aiff_frames_exact), an estimate F >= N for headerless RAW (dwvw_raw_frames_partial).")
